@@ -385,9 +385,27 @@ def observe_norm(rng, qu, m, n, cplx, rep, kind, herm=False):
 
 
 # ----------------------------------------------------------------------------- matrix functions
-def observe_fn(rng, qu, n, op, kind, rep, herm):
-    Q, c = U.gauss_unitary(rng, n)
-    if kind == "phase":      # exp(-i t H), H integer spectrum, t = m pi / 2
+# A block structured 7x7 Hermitian H = Q diag(s) Q^dagger / 4 (sectors {0,6}, {1}, {2..5}) on which scipy's
+# 1-norm estimator, started from np.random.seed(7), returns 9.76 instead of 20.87 (see notes/C17_report.md, KF-C17-5)
+_PINNED_Q = [[[0, 0], [0, 0], [-1, 1], [0, 0], [0, 0], [0, 0], [1, -1]], [[0, 0], [0, 0], [0, 0], [0, 0], [0, 0], [0, -2], [0, 0]],
+             [[-1, 0], [0, -1], [0, 0], [0, -1], [1, 0], [0, 0], [0, 0]], [[1, 0], [0, -1], [0, 0], [0, 1], [1, 0], [0, 0], [0, 0]],
+             [[0, 1], [1, 0], [0, 0], [1, 0], [0, -1], [0, 0], [0, 0]], [[0, -1], [1, 0], [0, 0], [-1, 0], [0, -1], [0, 0], [0, 0]],
+             [[0, 0], [0, 0], [-1, 1], [0, 0], [0, 0], [0, 0], [-1, 1]]]
+_PINNED = {"Q": _PINNED_Q, "c": 4, "s": [2, 3, 3, 1, 3, 1, -3], "m": 3,
+           "vec": [[-1, -2], [0, 0], [2, 0], [2, -1], [0, 1], [-2, 2], [2, -2]], "npseed": 7}
+
+
+def observe_fn(rng, qu, n, op, kind, rep, herm, pinned=None):
+    if pinned is not None:
+        Q, c = np.array([[complex(a, b) for a, b in row] for row in pinned["Q"]]), pinned["c"]
+    else:
+        Q, c = U.gauss_unitary(rng, n)
+    if pinned is not None:
+        s, m = list(pinned["s"]), pinned["m"]
+        ms = [m] * n
+        H = (Q * np.asarray(s, dtype=float)) @ Q.conj().T / c
+        A = -1j * (m * math.pi / 2) * H
+    elif kind == "phase":      # exp(-i t H), H integer spectrum, t = m pi / 2
         s = [int(x) for x in rng.integers(-3, 4, size=n)]
         m = int(rng.integers(1, 8))
         ms = [m] * n
@@ -410,18 +428,26 @@ def observe_fn(rng, qu, n, op, kind, rep, herm):
         A = A.real.copy()
     Ar = U.as_rep(A, rep)
     vec = [[int(a), int(b)] for a, b in zip(rng.integers(-2, 3, size=n), rng.integers(-2, 3, size=n))]
+    if pinned is not None:
+        vec = [list(x) for x in pinned["vec"]]
     r = {"ev": "fn", "tid": 0, "op": op, "kind": kind, "n": n, "rep": rep, "herm": bool(herm), "Q": U.gmat_rows(Q), "c": c,
-         "s": s, "ms": ms, "vec": vec, "out": [], "ongrid": False, "exc": "", "warn": False, "ketshape": False}
+         "s": s, "ms": ms, "vec": vec, "out": [], "ongrid": False, "exc": "", "warn": False, "ketshape": False,
+         "pinned": pinned is not None}
     if op == "expm":
         cc = Catch().run(lambda: qu.expm(Ar, herm=herm))
     elif op == "sqrtm":
         cc = Catch().run(lambda: qu.sqrtm(Ar, herm=herm))
     else:
         v = np.array([complex(a, b) for a, b in vec])
-        if rng.random() < 0.4:
+        if pinned is None and rng.random() < 0.4:
             v = qu.qarray(v.reshape(-1, 1))
             r["ketshape"] = True
-        cc = Catch().run(lambda: qu.expm_multiply(Ar, v))
+        kw = {}
+        if rep == "linop":
+            # scipy estimates the trace of a matrix-free operator with a single random probe drawn from OS
+            # entropy ("The result is not deterministic") and asks for `traceA`: give it, so the call is reproducible
+            kw["traceA"] = complex(np.trace(A))
+        cc = Catch().run(lambda: qu.expm_multiply(Ar, v, **kw), seed=None if pinned is None else pinned["npseed"])
     r["exc"], r["warn"] = cc.exc, cc.warn
     if not cc.exc:
         try:
@@ -429,7 +455,10 @@ def observe_fn(rng, qu, n, op, kind, rep, herm):
             val = val.toarray() if sp.issparse(val) else np.asarray(val)
             want = (n,) if op == "expm_multiply" else (n, n)
             if val.size == int(np.prod(want)) and (val.shape == want or (op == "expm_multiply" and val.shape == (n, 1))):
-                sn = snap_gmat(val.reshape(want), c, tol=U.FTOL_SQRT if op == "sqrtm" else U.FTOL)
+                atol = 0.0
+                if op == "sqrtm" and 0 in s:
+                    atol = U.SQRT_SAFETY * c * math.sqrt(n * np.finfo(float).eps * max(1.0, np.linalg.norm(A, 2)))
+                sn = snap_gmat(val.reshape(want), c, tol=U.FTOL, atol=atol)
                 if sn is not None:
                     r["out"], r["ongrid"] = sn, True
         except Exception as ex:  # noqa
@@ -755,6 +784,9 @@ def run(ctx):
             ]:
                 recs.append(observe_fn(rng, qu, n, op, kind, rep, herm))
     ctx.sample({"fn": {k: v for k, v in recs[-2].items() if k != "Q"}})
+    # the pinned block-structured operator: dense (must be right) and matrix-free with the bad estimator start
+    recs.append(observe_fn(rng, qu, 7, "expm_multiply", "phase", "dense", False, pinned=_PINNED))
+    recs.append(observe_fn(rng, qu, 7, "expm_multiply", "phase", "linop", False, pinned=_PINNED))
 
     # block-diagonal shortcut
     size_sets = [[1], [2], [1, 1], [3, 1], [1, 2, 2], [2, 3, 1, 1], [4, 4], [5, 1, 3], [6, 2, 2, 1, 1]]
@@ -791,7 +823,7 @@ def run(ctx):
     ctx.extra["records_by_event"] = dict(ctx.events)
     ctx.extra["rejections_seen"] = _count(recs, lambda r: r.get("exc", "") != "")
     ctx.extra["nonconvergence_warnings"] = sum(1 for r in recs if r.get("warn"))
-    ctx.extra["tolerances"] = {"value_snap": U.VTOL, "residual_rel": U.RTOL, "gram": U.OTOL, "matrix_function_rel": U.FTOL, "sqrtm_rel": U.FTOL_SQRT}
+    ctx.extra["tolerances"] = {"value_snap": U.VTOL, "residual_rel": U.RTOL, "gram": U.OTOL, "matrix_function_rel": U.FTOL, "sqrtm_zero_eigenvalue_abs": "20*c*sqrt(n*eps*||A||_2)"}
     ctx.clauses.update([
         "Returns", "Count", "Genuine", "Selected", "Sorted", "EigenEquation", "Orthonormal", "Bounds", "AutoServesOperator",
         "WindowSelected", "SingularValues", "TripletEquation", "ReturnsDocumentedShape", "NormValue", "FunctionValue",
